@@ -213,13 +213,16 @@ def run_harness(batch: Tuple[str, ...], nworkers: int, prefix: List[int], fine: 
     harness.quiet()
     in_memory.threading = types.SimpleNamespace(Lock=lambda: sched.CoopLock(lambda: _CUR[0]), Thread=real_threading.Thread)
     # fine mode: additionally a scheduling point at every source line of the master and worker modules
+    retire = fine == "retire"  # worker 0 is stopped and leaves (closing its handle on the SHARED transport) after the first job; the rest go on
     if fine == "ctxproc":
         import semantiva.context_processors.context_processors as cpm
 
         files = [cpm.__file__]
+    elif retire:
+        files = []
     else:
         files = ([wk.__file__] if fine == "worker" else [qo.__file__, wk.__file__]) if fine else []
-    s = sched.Scheduler(files, prefix, max_steps=400000, policy=policy)
+    s = sched.Scheduler(files, prefix, max_steps=400000 if files else 30000, policy=policy)
     _CUR[0] = s
     try:
         inner = in_memory.InMemorySemantivaTransport()
@@ -229,22 +232,38 @@ def run_harness(batch: Tuple[str, ...], nworkers: int, prefix: List[int], fine: 
         orch = qo.QueueSemantivaOrchestrator(tr, stop_event=stop, logger=log)
         orch.job_queue = CoopQueue(lambda: tr.has("jobs.*.status") or stop.peek())
         orch.pending_futures = YieldDict()
-        wk.time = types.SimpleNamespace(sleep=lambda dt: S().block_until(lambda: tr.has("jobs.*.cfg") or stop.peek(), "worker.sleep", kind="waiting"))
+        tl = real_threading.local()
+        stops = [CoopEvent() for _ in range(nworkers)] if retire else [stop] * nworkers
+        exited = [False] * nworkers
+        # (the predicate is evaluated by the scheduler's controller thread: the worker's own stop event is captured here, in the worker)
+        wk.time = types.SimpleNamespace(sleep=lambda dt: (lambda st: S().block_until(lambda: tr.has("jobs.*.cfg") or st.peek(), "worker.sleep", kind="waiting"))(getattr(tl, "stop", stop)))
         futures: List[Tuple[str, Future, Any]] = []
         nodes = {name: job_nodes(name) for name in set(batch)}
         counter = iter(range(1, 1000))
         qo.uuid = types.SimpleNamespace(uuid4=lambda: f"job-{next(counter):04d}")  # own the job-id randomness
 
         def client():
-            for name in batch:
+            for i, name in enumerate(batch):
                 ctx = ContextType(dict(JOBS[name][1]))
                 f = orch.enqueue(nodes[name], data=None, context=ctx, return_future=True)
                 futures.append((name, f, ctx))
+                if retire and i == 0:
+                    S().block_until(lambda: futures[0][1].done(), "client.wait-first-job", kind="waiting")
+                    stops[0].set()
+                    S().block_until(lambda: exited[0], "client.wait-worker-0-gone", kind="waiting")
+
+        def worker(w):
+            tl.stop = stops[w]
+            try:
+                wk.worker_loop(w, tr, SequentialSemantivaExecutor(), stops[w], logger=log)
+            finally:
+                exited[w] = True
+                touch()
 
         s.spawn(0, client)
         s.spawn(1, orch.run_forever)
         for w in range(nworkers):
-            s.spawn(2 + w, lambda w=w: wk.worker_loop(w, tr, SequentialSemantivaExecutor(), stop, logger=log))
+            s.spawn(2 + w, lambda w=w: worker(w))
         x = s.run()
         blocked = [t for t, st in s.state.items() if st == "blocked"]
         obs = {"jobs": [], "blocked_threads": blocked, "errors": {k: repr(v) for k, v in x.errors.items()},
@@ -260,6 +279,7 @@ def run_harness(batch: Tuple[str, ...], nworkers: int, prefix: List[int], fine: 
                 data, rctx = f.result()
                 obs["jobs"].append((name, "result", [list(harness.canon_data(data)), {k: v for k, v in rctx.to_dict().items()}]))
         obs["enqueued"] = len(futures)
+        obs["livelock"] = x.livelock
         x.obs = obs
         if not x.deadlock:
             x.obs["terminated"] = True
@@ -332,6 +352,9 @@ def _explore_pair_root(arg):
 def judge_factory(batch: Tuple[str, ...]):
     def judge(x: sched.Execution) -> Optional[Tuple[str, str]]:
         o = x.obs
+        if o.get("livelock"):
+            pend = [n for n, st_, _ in o["jobs"] if st_ == "pending"]
+            return ("livelock", f"master / workers keep polling without making progress (step horizon exceeded); futures still pending: {pend}")
         if o["errors"]:
             return ("thread-raised", f"a thread raised: {o['errors']}")
         if o["blocked_threads"]:
@@ -400,13 +423,14 @@ def plans(tier: str):
         return [(("J1",), 1, 2, False), (("J1", "J2"), 1, 1, False), (("J1", "J2"), 2, 1, False), (("FAIL",), 1, 1, False),
                 (("J1", "FAIL"), 1, 1, False), (("BADCFG", "J1"), 1, 0, False), (("BADCTOR",), 1, 1, False), (("J1", "BADCTOR", "J2"), 1, 0, False),
                 (("BADCTOR", "J1"), 2, 0, False),
-                (("J1", "J2"), 1, 1, "worker"), (("FAIL", "J2"), 1, 1, "worker"), (("K1", "K2"), 2, 1, "pair"), (("K3", "K3"), 2, 1, "pair"), (("K1", "K2"), 2, 0, False)]
+                (("J1", "J2"), 1, 1, "worker"), (("FAIL", "J2"), 1, 1, "worker"), (("K1", "K2"), 2, 1, "pair"), (("K3", "K3"), 2, 1, "pair"), (("K1", "K2"), 2, 0, False),
+                (("J1", "J2", "FAIL"), 2, 0, "retire")]
     return [(("J1",), 1, 3, False), (("J1", "J2"), 1, 2, False), (("J1", "J2"), 2, 2, False), (("J1", "J2", "J3"), 2, 1, False), (("FAIL",), 1, 2, False),
             (("J1", "FAIL"), 1, 2, False), (("FAIL", "J2"), 2, 2, False), (("J1", "FAIL", "J3"), 2, 1, False), (("J1", "J2", "FAIL"), 2, 1, False),
             (("FAIL", "J1", "J2"), 1, 1, False), (("BADCFG", "J1"), 2, 1, False), (("J1", "J1"), 2, 2, False),
             (("BADCTOR",), 1, 2, False), (("J1", "BADCTOR", "J2"), 1, 1, False), (("BADCTOR", "J1"), 2, 1, False), (("J1", "BADCTOR"), 2, 1, "worker"),
             (("J1",), 1, 2, True), (("J1", "J2"), 1, 1, True), (("J1", "J2"), 2, 1, "worker"), (("FAIL", "J2"), 2, 1, "worker"), (("J1", "J2"), 2, 1, True),
-            (("K3", "K4"), 2, 1, "ctxproc"), (("K1", "K2"), 2, 2, "pair"), (("K1", "K1", "K2"), 3, 1, "pair"), (("K3", "K4"), 2, 3, "pair"), (("K2", "K1"), 2, 1, False)]
+            (("K3", "K4"), 2, 1, "ctxproc"), (("K1", "K2"), 2, 2, "pair"), (("K1", "K1", "K2"), 3, 1, "pair"), (("K3", "K4"), 2, 3, "pair"), (("K2", "K1"), 2, 1, False), (("J1", "J2", "FAIL"), 2, 1, "retire"), (("J1", "J2", "J3", "FAIL"), 3, 0, "retire")]
 
 
 def _rr_worker(chunk):
